@@ -1,5 +1,6 @@
 import DaskModel.DriverLib
 import DaskModel.Model.ArrOverlapNd
+import DaskModel.Model.ArrOverlapNdGather
 /-
 Line-protocol handlers of the C26 extension round (N-d overlap blocks); appended to the table of `Drivers/slicing.lean`.
 A source is an integer: a position of the axis, or `-1` for the constant fill of that axis.
@@ -29,9 +30,10 @@ def ofSrcss (o : Option (List (List (Option Nat)))) : SExp :=
 def ofPairs (o : Option (List (Nat × Nat))) : SExp :=
   match o with | some ps => .list (ps.map fun p => SExp.ofNats [p.1, p.2]) | none => .sym "none"
 
-/-- `(ndoverlap (axis…) (bs…))` ↦ `(ext rect blk trim rectspec padded)`: the extended block as the product of the 1-d
+/-- `(ndoverlap (axis…) (bs…))` ↦ `(ext rect blk trim rectspec padded pieces)`: the extended block as the product of the 1-d
     models, the closed-form hyper-rectangle, the original block, what `_trim` cuts from a block with the extended
-    extents (`(front length)` per axis), `(base extent)` per axis in the padded array, the padded axes -/
+    extents (`(front length)` per axis), `(base extent)` per axis in the padded array, the padded axes, per axis the
+    pieces `concatenate_shaped` joins -/
 def hNdOverlap : Handler := handler fun args =>
   match args with
   | [ax, bs] => do
@@ -42,7 +44,10 @@ def hNdOverlap : Handler := handler fun args =>
       | some ls => trimSpec axes bs (ls.map List.length)
       | none => none
     pure (.list [ofSrcss ext, ofSrcss (ndRect axes bs), ofSrcss (ndBlock axes bs), ofPairs trim,
-      ofPairs (rectSpec axes bs), .list ((axes.map Axis.padded).map ofSrcs)])
+      ofPairs (rectSpec axes bs), .list ((axes.map Axis.padded).map ofSrcs),
+      match ndPieces axes bs with
+      | some segs => .list (segs.map fun ss => .list (ss.map ofSrcs))
+      | none => .sym "none"])
   | _ => none
 
 def ofWin (o : Option (List (Nat × List (Option Nat)))) : SExp :=
